@@ -460,6 +460,11 @@ func (g *G) Attribute() kmip.Attribute {
 		v := g.genericValue(0)
 		v.Tag = kmip.TagAttributeValue
 		a.AttributeValue = v
+		if _, isStruct := v.Value.(ttlv.Struct); !isStruct && v.Value != nil && g.coin("barevalue", 1, 3) {
+			// the way applications set a custom attribute: the plain Go value (a string, a number, a ttlv.Enum, ...), not
+			// the generic wrapper a decoder produces
+			a.AttributeValue = v.Value
+		}
 		g.label("attr=custom")
 	case 1: // arbitrary unknown name; half of the time a near miss of a standard name (other case, extra blank, a prefix)
 		name := Text(g.T, g.lbl("uname"), g.O.Alphabet, 14)
